@@ -24,6 +24,7 @@ import (
 	"github.com/gardenbed/emerge/zz_verif/gen"
 	"github.com/gardenbed/emerge/zz_verif/simrt"
 	"github.com/gardenbed/emerge/zz_verif/simsched"
+	simctl "github.com/moorara/algo/zz_simctl"
 )
 
 type Engine struct {
@@ -570,6 +571,7 @@ func (e Engine) selfTest(res *simrt.Result) *simrt.Result {
 
 func (e Engine) Run(t *simrt.Tape, c simrt.Case, x *simrt.Ctx) *simrt.Result {
 	res := simrt.NewResult()
+	simctl.Begin(simctl.Sorted, c.Seed) // the dependency's clock-seeded PRNGs follow the case seed: schedules replay exactly
 	if e.RaceLog == "" {
 		panic("VERIF_RACE_LOG not set")
 	}
